@@ -85,9 +85,10 @@ Definition spec_shared_filter (f : bytes) : bool :=
 Definition starts_with_share (f : bytes) : bool :=
   match levels f with first :: _ :: _ => seqb first STR_SHARE | _ => false end.
 
-(* a Topic Filter a client may send in SUBSCRIBE / UNSUBSCRIBE *)
+(* a Topic Filter a client may send in SUBSCRIBE / UNSUBSCRIBE (4.7 grammar, [MQTT-4.7.3-2] no null
+   character, 4.8.2 shared form) *)
 Definition spec_filter (f : bytes) : bool :=
-  spec_plain_filter f && (if starts_with_share f then spec_shared_filter f else true).
+  spec_plain_filter f && no_nul f && (if starts_with_share f then spec_shared_filter f else true).
 
 Definition filter_has_wildcard (f : bytes) : bool := has_byte 35 f || has_byte 43 f.
 
@@ -162,7 +163,7 @@ Inductive rule :=
 | RMaximumPacketSize     (* [MQTT-3.2.2-15] CONNACK Maximum Packet Size *)
 | RPacketIdZero          (* [MQTT-2.2.1-3/-4] non-zero packet identifier *)
 | RTopicName             (* 4.7 topic name: non-empty, at most 65535 bytes, no wildcards *)
-| RTopicNul              (* [MQTT-4.7.3-2] no null character in topic names / filters *)
+| RTopicNul              (* [MQTT-4.7.3-2] no null character in topic names / filters of PUBLISH / SUBSCRIBE / UNSUBSCRIBE *)
 | RTopicAliasZero        (* [MQTT-3.3.2-8] topic alias 0 *)
 | RMaximumQos            (* [MQTT-3.2.2-11] CONNACK Maximum QoS *)
 | RRetainNotAvailable    (* [MQTT-3.2.2-14] CONNACK Retain Available = 0 *)
@@ -182,7 +183,7 @@ Inductive rule :=
 | RReceiveMaximumZero    (* 3.1.2.11.3 CONNECT Receive Maximum 0 *)
 | RMaximumPacketSizeZero (* 3.1.2.11.4 CONNECT Maximum Packet Size 0 *)
 | RAuthDataWithoutMethod (* 3.1.2.11.10 authentication data without method *)
-| RWillTopic.            (* 3.1.3.3 will topic is a topic name *)
+| RWillTopic.            (* 3.1.3.3 will topic is a topic name (4.7 grammar and [MQTT-4.7.3-2] no null character) *)
 
 Definition rule_eqb (a b : rule) : bool :=
   match a, b with
@@ -289,8 +290,7 @@ Definition connect_rules (c : connect) : list rule :=
   ups_rules (con_up c) ++
   match con_will c with
   | Some w =>
-      req RWillTopic (spec_topic (pub_topic w)) ++
-      req RTopicNul (no_nul (pub_topic w)) ++
+      req RWillTopic (spec_topic (pub_topic w) && no_nul (pub_topic w)) ++
       req RStringLen (ostr_ok (pub_content_type w) && ostr_ok (pub_response_topic w)) ++
       req RBinaryLen (ostr_ok (pub_correlation w) && ostr_ok (pub_payload w)) ++
       ups_rules (pub_up w)
